@@ -128,6 +128,50 @@ def cat_case(n):
                 bounds={"sections": n, "values": "symbolic finite reals"}, expect_ok=False, check_side=False)
 
 
+def speed_case(n):
+    items = [{"offset_start": Sym(f"s{i}"), "offset_end": Sym(f"e{i}"), "speed": Sym(f"v{i}")} for i in range(n)]
+
+    def ref(c):
+        S = c.S
+        conds = []
+        for i in range(n):
+            conds += [XLE(0, S[f"s{i}"]), XLE(0, S[f"e{i}"]), XLE(S[f"s{i}"], S[f"e{i}"])]
+        for i in range(n - 1):
+            a, b = (S[f"s{i}"], S[f"e{i}"], S[f"v{i}"]), (S[f"s{i+1}"], S[f"e{i+1}"], S[f"v{i+1}"])
+            # sorted: lexicographic order on (start, end, speed); and no two neighbours with the same extent
+            le = OR(XLT(a[0], b[0]), AND(XEQ(a[0], b[0]), OR(XLT(a[1], b[1]), AND(XEQ(a[1], b[1]), XLE(a[2], b[2])))))
+            conds += [le, NOT(AND(XEQ(a[0], b[0]), XEQ(a[1], b[1])))]
+        return AND(*conds)
+
+    claims = [Claim("accepted only if every section is well-formed, sections are sorted and neighbouring extents differ", ref, when="ok", role="accepts_only_valid"),
+              Claim("rejected only if one of those rules is broken", lambda c: NOT(ref(c)), when="err", role="rejects_only_invalid"),
+              Claim("no_panic", None, when="nopanic")]
+    return Case(f"speed_limits_validate_n{n}", "C16", "Vec<SpeedLimit>", items, [Call("<[SpeedLimit] as ObjState>::validate", [])], None, claims,
+                bounds={"sections": n, "values": "symbolic finite reals"}, expect_ok=False, check_side=False)
+
+
+def speed_special_case(field, sp, n=2, k=0):
+    items = [{"offset_start": Sym(f"s{i}"), "offset_end": Sym(f"e{i}"), "speed": Sym(f"v{i}")} for i in range(n)]
+    items[k][field] = SPECIALS[sp]
+
+    def assume(S):
+        d = []
+        for i in range(n):
+            if f"s{i}" in S: d.append((f"s{i} >= 0", S[f"s{i}"] >= 0))
+            if f"s{i}" in S and f"e{i}" in S: d.append((f"s{i} <= e{i}", S[f"s{i}"] <= S[f"e{i}"]))
+            if f"e{i}" in S and f"s{i}" not in S: d.append((f"e{i} >= 0", S[f"e{i}"] >= 0))
+        for i in range(n - 1):
+            if f"s{i}" in S and f"s{i+1}" in S: d.append((f"s{i} < s{i+1}", S[f"s{i}"] < S[f"s{i+1}"]))
+        return d
+    claims = [Claim(f"a speed set with {sp} in {field} is rejected", lambda c: False, when="ok", role="special_value_rejected"),
+              Claim("no_panic", None, when="nopanic", role="special_no_panic")]
+    c = Case(f"speedlimit_special_{field}_{sp.replace('+', 'p').replace('-', 'm')}_k{k}of{n}", "C16", "Vec<SpeedLimit>", items, [Call("<[SpeedLimit] as ObjState>::validate", [])], assume, claims,
+             bounds={"elements": n, "special value": f"element {k}.{field} = {sp}", "other fields": "symbolic, satisfying the rules"}, expect_ok=False, check_side=False)
+    c.no_tv = True
+    c.expect_err = True
+    return c
+
+
 # ---------------------------------------------------------------- special values: NaN and infinite fields (one at a time, the other fields symbolic and valid)
 SPECIALS = {"NaN": float("nan"), "+inf": float("inf"), "-inf": float("-inf")}
 
@@ -181,7 +225,8 @@ def special_case(ty, field, sp, n=2, k=0):
 
 
 def special_cases(tier):
-    cs = []
+    cs = [speed_special_case("offset_start", "NaN"), speed_special_case("offset_end", "NaN", 2, 1), speed_special_case("speed", "NaN"),
+          speed_special_case("offset_start", "-inf"), speed_special_case("offset_end", "-inf"), speed_special_case("offset_start", "+inf")]
     for sp in SPECIALS:
         for f in ("offset_start", "offset_end", "power_limit"):
             if sp == "+inf" and f in ("offset_end", "power_limit"):
@@ -287,7 +332,7 @@ def m_cases(tier):
         for j in (js if tier != "quick" else js[:2]):
             for f in FIELDS:
                 cs.append(xref_case(kind, j, f))
-    cs += [elevs_case(2), elevs_case(3), elevs_case(2, "Heading"), cat_case(1), cat_case(2)]
+    cs += [elevs_case(2), elevs_case(3), elevs_case(2, "Heading"), cat_case(1), cat_case(2), speed_case(1), speed_case(2), speed_case(3)]
     if tier == "thorough":
         cs += [elevs_case(1), elevs_case(4), elevs_case(3, "Heading"), cat_case(3)]
     return cs
